@@ -40,7 +40,7 @@ for q in sorted(fns):
     except Exception as e:
         print("skip", q, type(e).__name__, e)
         continue
-    if s is not None and (s["total"] or s["refuses"] or s["guards"] or s["defaults"] or s["option_defaults"] or s["index_statements"] or s["answers"]):
+    if s is not None and (s["total"] or s["refuses"] or s["guards"] or s["defaults"] or s["option_defaults"] or s["index_statements"] or s["answers"] or s["effects"]):
         s["props"] = props.get(q, [])
         out[q] = s
 (V / "mdsa" / "pinned_summaries.json").write_text(json.dumps(out, indent=1, sort_keys=True))
